@@ -2022,6 +2022,22 @@ def bytes_method(I, recv, name, args, kwargs):
         return str_method(I, s, name, [VStr(a.t) if isinstance(a, VBytes) else a for a in args], kwargs)
     if name == 'isascii':
         return VBool(z3.InRe(s, z3.Star(z3.Range(chr(0), chr(127)))))
+    if name in ('lstrip', 'rstrip') and len(args) == 1 and is_concrete(args[0]) \
+            and isinstance(concretise(args[0]), bytes) and concretise(args[0]):
+        # bytes.lstrip(SET): the longest prefix made of bytes of the SET is removed (a set of bytes,
+        # not a prefix string)
+        cs = z3.Union(*[z3.Re(z3.StringVal(chr(b))) for b in sorted(set(concretise(args[0])))]) \
+            if len(set(concretise(args[0]))) > 1 else z3.Re(z3.StringVal(chr(concretise(args[0])[0])))
+        n = z3.Length(s)
+        k = z3.Int(fresh_name('strip_k'))
+        I.assume(z3.And(k >= 0, k <= n))
+        if name == 'lstrip':
+            I.assume(z3.InRe(z3.SubString(s, 0, k), z3.Star(cs)))
+            I.assume(z3.Or(k == n, z3.Not(z3.InRe(z3.SubString(s, k, 1), cs))))
+            return VBytes(z3.SubString(s, k, n - k))
+        I.assume(z3.InRe(z3.SubString(s, n - k, k), z3.Star(cs)))
+        I.assume(z3.Or(k == n, z3.Not(z3.InRe(z3.SubString(s, n - k - 1, 1), cs))))
+        return VBytes(z3.SubString(s, 0, n - k))
     raise Unsupported('bytes.%s' % name)
 
 
